@@ -1,6 +1,7 @@
 /- Line-protocol driver for the executable models: one request per line on stdin, the model's
    (and the specification's) canonical answer on stdout.  Imports Model/Spec/Driver only. -/
 import CdnsVerif.Driver.Enc
+import CdnsVerif.Driver.Ts
 open CdnsVerif.Driver
 
 def dispatch (line : String) : String :=
@@ -8,6 +9,7 @@ def dispatch (line : String) : String :=
   match line.splitOn " " with
   | "enc" :: rest => Enc.handle false (" ".intercalate rest)
   | "encv" :: rest => Enc.handle true (" ".intercalate rest)
+  | "ts" :: rest => TsD.handle rest
   | _ => "bad-request"
 
 partial def loop (h : IO.FS.Stream) (out : IO.FS.Stream) : IO Unit := do
